@@ -209,6 +209,19 @@ def check(chk):
                   'the list returned by get_replicas is the token map\'s cached object: shuffling it in place destroys the ring order for every later plan (also of policies that do '
                   'not shuffle) and lets two concurrent plans see a replica twice or not at all')
 
+    # the replica maps are rebuilt from the keyspace registry: the new metadata has to be in it before the rebuild is triggered
+    chk.rule('C22.fresh', 'Metadata._update_keyspace stores the new keyspace metadata in self.keyspaces before _keyspace_updated / _keyspace_added rebuild the token map')
+    from ..cfg import CFG as _CFG22
+    md_ = chk.repo.mod('cassandra/metadata.py')
+    uk_ = md_.func('Metadata._update_keyspace')
+    g22b = _CFG22(uk_)
+    st_ = [n for n in g22b.stmt_nodes() if n.kind == 'stmt' and isinstance(n.ast, ast.Assign) and src(n.ast.targets[0]).startswith('self.keyspaces[')]
+    rb_ = [n for n in g22b.stmt_nodes() if n.kind == 'stmt' and n.ast is not None and any(isinstance(x, ast.Call) and src(x.func) in ('self._keyspace_updated', 'self._keyspace_added') for x in ast.walk(n.ast))]
+    if not st_ or not rb_:
+        raise AnalysisError('Metadata._update_keyspace: registry store / rebuild calls not found')
+    chk.judge(all(any(g22b.dominates(s_, r_) for s_ in st_) for r_ in rb_), 'C22.fresh', uk_, 'registry updated before the token map is rebuilt',
+              'the token map is rebuilt (TokenMap.rebuild_keyspace reads metadata.keyspaces) before the new keyspace metadata is stored: after ALTER KEYSPACE the replica map keeps the old '
+              'replication settings and token-aware plans start with stale replicas')
     # "a host" in a plan is an endpoint (address and port): two nodes that share an address are two hosts
     chk.rule('C22.identity', 'Host.__eq__ compares the endpoints of two Host objects (address and port), Host.__hash__ hashes the endpoint')
     from ..sem import flow_of as _flow22
